@@ -79,4 +79,6 @@ impl<K: Eq, S> HashSet<K, S> {
 pub struct SetIntoIter<K> { it: IntoIter<K, ()> }
 impl<K> Iterator for SetIntoIter<K> { type Item = K; fn next(&mut self) -> Option<K> { self.it.next().map(|(k, _)| k) } }
 impl<K, S> IntoIterator for HashSet<K, S> { type Item = K; type IntoIter = SetIntoIter<K>; fn into_iter(self) -> SetIntoIter<K> { SetIntoIter { it: self.map.into_iter() } } }
+impl<K: Eq, S> Extend<K> for HashSet<K, S> { fn extend<I: IntoIterator<Item = K>>(&mut self, it: I) { for k in it { self.insert(k); } } }
+impl<K, S> HashSet<K, S> { pub fn new() -> Self { Self::default() } }
 impl<K: Eq, S> FromIterator<K> for HashSet<K, S> { fn from_iter<I: IntoIterator<Item = K>>(it: I) -> Self { let mut m = Self::default(); for k in it { m.insert(k); } m } }
